@@ -43,6 +43,9 @@ def overlay_map(spec):
 def expand_cases(h, tier):
     """A harness entry may carry params (dict name -> list of ints) per tier; every
     combination is one case, decided separately by the solver."""
+    explicit = h.get("cases_" + tier, h.get("cases"))
+    if explicit:
+        return [dict(c) for c in explicit]
     params = h.get("params_" + tier, h.get("params", {}))
     if not params:
         return [{}]
